@@ -83,6 +83,13 @@ def gen(ctx):
         if cmds:
             cases.append(" ".join(["cmd_list", rng.choice(["add", "command", "extend"])] + cmds))
             meta.append(("", []))
+    # long commands inside lists (around one network segment, 1460 bytes, and beyond), first / middle / last / alone
+    for ln in (1400, 1440, 1441, 1442, 1443, 1444, 1445, 1446, 1447, 1448, 1449, 1450, 1451, 1452, 1453, 1454, 1455, 1456, 1457, 1458, 1459, 1460, 1461, 1500, 4000, 9000):
+        long_cmd = ",".join([hexs("sticker"), hexs("set"), hexs("song"), hexs("a b"), hexs("x" * ln)])
+        short = ",".join([hexs("play"), hexs("3")])
+        for shape in ([long_cmd, short], [short, long_cmd], [short, long_cmd, short], [long_cmd], [long_cmd, long_cmd]):
+            cases.append(" ".join(["cmd_list", rng.choice(["add", "command", "extend"])] + shape))
+            meta.append(("", []))
     if ctx.tier == "thorough":
         # every argument string of length <= 4 over a 10-symbol class alphabet, in each of 3 positions
         strings = [""]
